@@ -57,8 +57,12 @@ def gen_lineage(r):
         if nullable_x and 'X' in force:
             # first override: a definition that can fail; later ones: either kind
             fb = {'X': r.choice(spec.FAILING_X_OVERRIDES if (i == 1 or r.random() < 0.5) else spec.NULLABLE_X_BASES)}
+        fi = ()
+        if matrix and r.random() < 0.5:
+            # the derived grammar overrides the two-parameter rule, possibly listing the parameters in another order
+            fi = (r.choice(spec.CN_OVERRIDES),)
         s, g = spec.gen_child(r, prev.gen, hook_p=0.0, ignore=ig, force=force, override_ignore_p=0.25,
-                              respell_start_p=0.3, force_body=fb)
+                              respell_start_p=0.3, force_body=fb, force_items=fi)
         m = C.ModInfo(i, nm(i), prev.id, s, g, parent=prev)
         infos.append(m)
         prev = m
